@@ -335,6 +335,9 @@ def check_malformed(chk, cases):
         orig_payload = case[2] if len(case) > 2 else None
         replay = {'stream': 'D', 'kind': kind, 'hex': data.hex()}
         chk.case(replay)
+        if G.bomb_screen(data):
+            chk.count('D:not run: uint >= 2^26 in a byte-string slot (BstrField.m2i would allocate that many octets)')
+            continue
         try:
             back = R['Bundle'](data)
             real_ok = True
@@ -515,6 +518,7 @@ def run(chk):
         'decoder leniency outside the supported subset (extra array items, int()/bytes() coercions, indefinite inner items) is counted, not compared',
     ]
     chk.prove('DtnVerif.Props.C02')
+    G.limit_memory()
     rng = chk.rng
     quick = chk.tier == 'quick'
     n_main = 1100 if quick else 40000
@@ -529,7 +533,7 @@ def run(chk):
     cases = []
     for i in range(n_mal):
         spec = G.gen_bundle(rng, i, crc_mode='given')
-        cases.append(gen_malformed(rng, spec) + (spec['blocks'][-1]['btsd'].hex(),))
+        cases.append(gen_malformed(rng, spec) + (spec['blocks'][-1]['btsd'].hex() if spec['primary']['flags'] & 2 else None,))
     for k in range(0, len(cases), 1000):
         check_malformed(chk, cases[k:k + 1000])
     check_pending_reenc(chk)
